@@ -518,6 +518,37 @@ def gen_okkhor(repo):
     L.append("end Riti.Gen")
     return "OkkhorPatterns.lean", "\n".join(L) + "\n"
 
+def gen_panicsites(repo):
+    """whether the two `Regex::new(..)` calls on the suggestion paths tolerate a compile failure"""
+    item = "panicsites"
+    flags = []
+    for f in ("src/phonetic/suggestion.rs", "src/fixed/search.rs"):
+        src = strip_comments(read(f"{repo}/{f}"))
+        calls = [m.start() for m in re.finditer(r'Regex::new\(', src)]
+        if not calls: raise Fail(item, f"no Regex::new call in {f}")
+        for c in calls:
+            # the statement up to the next `;` that is not inside braces of a match
+            stmt_start = src.rfind("\n", 0, c)
+            head = src[stmt_start:c]
+            # find the end of the call's parentheses
+            depth = 0; j = c + len("Regex::new")
+            while True:
+                if src[j] == '(': depth += 1
+                elif src[j] == ')':
+                    depth -= 1
+                    if depth == 0: break
+                j += 1
+            tail = src[j + 1:j + 40].lstrip()
+            if tail.startswith(".unwrap()") or tail.startswith(".expect("): flags.append(True)
+            elif re.search(r'\bmatch\s*$', head) or re.search(r'if let (Ok|Some)\(\w+\) =\s*$', head) or tail.startswith(".ok()") or tail.startswith("{") or tail.startswith("?"): flags.append(False)
+            else: raise Fail(item, f"unrecognised handling of Regex::new in {f}: …{head[-30:]!r} … {tail[:30]!r}")
+    L = ["/- GENERATED by tools/translate.py from src/phonetic/suggestion.rs and src/fixed/search.rs — do not edit -/",
+         "namespace Riti.Gen",
+         "/-- does a failing `Regex::new` (CompiledTooBig on a very long word) reach an `unwrap()`? one flag per call site -/",
+         "def regexCompileUnwraps : List Bool := [" + ", ".join("true" if x else "false" for x in flags) + "]",
+         "end Riti.Gen"]
+    return "PanicSites.lean", "\n".join(L) + "\n"
+
 def main():
     ap = argparse.ArgumentParser()
     ap.add_argument("--repo", default="/repo")
@@ -543,7 +574,7 @@ def main():
         if r2: outs.append(r2)
     else:
         failed.append(("layoutkeys", "depends on keycodes"))
-    for item, f in (("charclasses", gen_charclasses), ("rankcmp", gen_rankcmp), ("okkhor", gen_okkhor)):
+    for item, f in (("charclasses", gen_charclasses), ("rankcmp", gen_rankcmp), ("okkhor", gen_okkhor), ("panicsites", gen_panicsites)):
         r = run(item, lambda: f(a.repo))
         if r: outs.append(r)
     changed = []
